@@ -25,6 +25,17 @@ POINTS = {
     "e": {"Q2": X1, "x": Q1},  # forced collision partner of a under a value-order cache key
     "d": {"x": X2, "Q2": Q2},
 }
+# second family: zero-mass variable-flavour scheme, points in three different nf regions (shared scale-variation operator cache)
+POINTS.update({
+    "p": {"x": 0.3, "Q2": 2.0},   # nf=3
+    "q": {"x": 0.3, "Q2": 10.0},  # nf=4
+    "r": {"x": 0.1, "Q2": 30.0},  # nf=5
+    "s": {"x": 0.1, "Q2": 10.0},  # nf=4
+})
+FAMILIES = {
+    "ffns": {"base": {"scheme": "FFNS3", "process": "NC"}},
+    "zm": {"base": {"scheme": "ZM-VFNS", "process": "NC"}},
+}
 Y = 0.5
 U_QUICK = ["F2_total", "FL_total", "XSHERANC_total"]
 U_THOROUGH = ["F2_total", "FL_total", "XSHERANC_total", "F3_total", "g1_total", "XSCHORUSCC_charm", "F2_charm"]
@@ -38,7 +49,7 @@ RULE = (
     "share a cache (same SF, or TMC/XS coupling) ; distinct_outcomes = distinct canonical end states (sorted cache-key sets + computed flags) / result digests"
 )
 ASSUMPTIONS = [
-    "scheme FFNS3, NC, PTO 1 (H1) / PTO 0 (H2), grid G6, proton, M=0.938; points a,b,c,a',e(,d) with Q2 in {0.3,0.5,7}",
+    "H1 family ffns: FFNS3, NC, PTO 1, points a,b,c,a',e with Q2 in {0.3,0.5,7}; H1 family zm: ZM-VFNS, NC, PTO 1 (thorough also 2), points with Q2 in {2,10,30} i.e. nf=3,4,5 (shared scale-variation operator cache across nf); H2: FFNS3 PTO 0; grid G6, proton, M=0.938",
     "the isolated reference is computed on a fresh Runner in the same worker process after clearing yadism's only module-level memo (heavy.n3lo.interpolators); violations are re-confirmed in a fresh interpreter",
     "histories longer than the stated bounds and observables outside U are not covered",
 ]
@@ -86,6 +97,19 @@ def states(tier, seed):
                 for pl1 in plists:
                     for pl2 in plists:
                         out.append({"h": "H1", "tmc": tmc, "card": [[o1, pl1], [o2, pl2]]})
+    # H1, zero-mass family: points spread over nf regions
+    Uz = ["F2_total", "FL_light", "XSHERANC_total"]
+    Pz = ["p", "q", "r"] if tier == "quick" else ["p", "q", "r", "s"]
+    plz = [[a] for a in Pz] + [[a, b] for a in Pz for b in Pz]
+    for tmc in ([0] if tier == "quick" else [0, 1]):
+        for pto in ([1] if tier == "quick" else [1, 2]):
+            for o in Uz:
+                for pl in plz:
+                    out.append({"h": "H1", "fam": "zm", "pto": pto, "tmc": tmc, "card": [[o, pl]]})
+            for o1, o2 in itertools.permutations(Uz, 2):
+                for pl1 in (plz if tier == "thorough" and pto == 1 else [[a] for a in Pz]):
+                    for pl2 in plz:
+                        out.append({"h": "H1", "fam": "zm", "pto": pto, "tmc": tmc, "card": [[o1, pl1], [o2, pl2]]})
     # H2
     depth = 3 if tier == "quick" else 4
     menu = h2_menu(tier)
@@ -117,19 +141,19 @@ def bounds(tier):
     return {"H2_menu": [list(m) for m in h2_menu(tier)], "H2_depth": 3 if tier == "quick" else 4}
 
 
-def _cell(tmc, pto):
-    c = dict(BASE)
+def _cell(tmc, pto, fam="ffns"):
+    c = dict(FAMILIES[fam]["base"])
     c["pto"] = pto
     c["tmc"] = tmc
     return c
 
 
-def _reference(o, pname, tmc, pto):
+def _reference(o, pname, tmc, pto, fam="ffns"):
     """Digest of the isolated request on a fresh runner."""
-    key = (o, pname if pname != "a'" else "a", tmc, pto)
+    key = (o, pname if pname != "a'" else "a", tmc, pto, fam)
     if key not in _REF:
         yrun.reset_memos()
-        out = yrun.run(_cell(tmc, pto), {o: [_pt(pname, _is_xs(o))]})
+        out = yrun.run(_cell(tmc, pto, fam), {o: [_pt(pname, _is_xs(o))]})
         _REF[key] = (yrun.res_digest(out[o][0]), out[o][0])
     return _REF[key]
 
@@ -143,7 +167,9 @@ def _h1(st):
     card = st["card"]
     obs_map = {o: [_pt(p, _is_xs(o)) for p in pl] for o, pl in card}
     yrun.reset_memos()
-    r = yrun.runner(_cell(tmc, 1), obs_map)
+    fam = st.get("fam", "ffns")
+    pto = st.get("pto", 1)
+    r = yrun.runner(_cell(tmc, pto, fam), obs_map)
     viol = []
     digs = []
     for call in (1, 2):
@@ -157,7 +183,7 @@ def _h1(st):
                 req = _pt(p, _is_xs(o))
                 if float(res.x) != req["x"] or float(res.Q2) != req["Q2"] or (_is_xs(o) and float(res.y) != req["y"]):
                     viol.append(_v(st, f"{o}[{i}] (point {p}) reports kinematics x={res.x} Q2={res.Q2}, requested {req} (get_result call {call})", "kinematics"))
-                refd, _ = _reference(o, p, tmc, 1)
+                refd, _ = _reference(o, p, tmc, pto, fam)
                 d = yrun.res_digest(res)
                 digs.append(d)
                 if d != refd:
